@@ -272,7 +272,7 @@ def cases(rng, tier):
     # --- hashes (bounded: each costs a KDF at generation, in the library and in the oracle)
     for kind, n in (("h5", 100 if q else 1500), ("h8", 60 if q else 400), ("h9", 60 if q else 400)):
         for i in range(n):
-            r = rng.random()
+            r = rng.random() if i >= 6 else (0.9 if i < 4 else 0.99)     # a few rejected / odd ones in every run
             pwd = rand_pwd(rng) if r < 0.85 else (rejected_pwd(rng) if r < 0.93 else odd_pwd(rng))
             yield mk(kind, pwd, seed=rng.randrange(1 << 30))
 
